@@ -71,7 +71,9 @@ def src_path(spec):
 
 
 def unit_tag(spec):
-    return os.path.splitext(os.path.basename(spec["src"]))[0]
+    s = spec["src"]
+    s = s[len(L):] if s.startswith(L) else s
+    return os.path.splitext(s)[0].replace("/", "_")
 
 
 def run_probe(name, text, log):
